@@ -76,6 +76,47 @@ def gen_caught_failure_program(ch: Choices):
     return prog
 
 
+
+def gen_cse_under_shallow_program(ch: Choices):
+    """
+    Targeted family: a shallow-validity task `b` calls `helper(x)` (default validity, has
+    children) after an equivalent `helper(x)` under another parent has already *finished* in the
+    same execution (b takes that other parent's result as an argument), so b's call is served by
+    backend CSE; the tasks beneath the shared call still belong to b's recorded subtree.
+    """
+    from simkit.progs import Program, TaskDef
+
+    prog = Program()
+
+    def task(idx, params, ret="int", leaf=False, **options):
+        t = TaskDef(idx)
+        t.params = [(n, "int", None) for n in params]
+        t.ret = ret
+        t.leaf = leaf
+        t.options.update(options)
+        prog.tasks.append(t)
+        return t
+
+    t0 = task(0, [], **({"check_valid": "shallow"} if ch.coin(0.3, "main-shallow") else {}))
+    a = task(1, ["x"])
+    b = task(2, ["x", "w"], check_valid="shallow")
+    helper = task(3, ["x"], **({"executor": "process"} if ch.coin(0.3, "helper-process") else {}))
+    mid = task(4, ["x"])
+    leaf = task(5, ["x"], leaf=True)
+    leaf.body = ("mix", "t5", [("par", "x")])
+    mid.body = ("op", "+", ("call", 5, [("par", "x")], [], {}), ("lit", 1))
+    deep = bool(ch.choice(2, "helper-depth"))
+    helper.body = ("op", "+", ("call", 4 if deep else 5, [("par", "x")], [], {}), ("lit", 2))
+    a.body = ("op", "+", ("call", 3, [("par", "x")], [], {}), ("lit", 3))
+    b.body = ("op", "+", ("call", 3, [("par", "x")], [], {}), ("par", "w"))
+    x = ch.choice(3, "arg")
+    first = ("call", 1, [("lit", x)], [], {})
+    second = ("call", 2, [("lit", x), ("call", 1, [("lit", x)], [], {})], [], {})
+    t0.body = ("applyf", "hsum", [first, second])
+    prog.features = {"ops", "applyf"}
+    return prog
+
+
 def subtree_closure_violations(db: str) -> list[tuple]:
     """Every call node lists its own task and everything its recorded children list."""
     view = DbView(db)
@@ -132,9 +173,13 @@ class C03(EngineACheck):
 
     def run_one(self, ch: Choices) -> RunOutcome:
         out = RunOutcome()
-        if ch.choice(4, "program-family") == 3:
+        fam = ch.choice(6, "program-family")
+        if fam == 5:
             prog = gen_caught_failure_program(ch)
             out.probe("caught_failure_family")
+        elif fam == 4:
+            prog = gen_cse_under_shallow_program(ch)
+            out.probe("cse_under_shallow_family")
         else:
             prog = Gen(ch, shallow_config(ch)).generate()
         sched_seed = ch.choice(1 << 30, "sched-seed")
